@@ -123,7 +123,7 @@ func c05Gen(tier string, seed int64) []ev.Case {
 // run is finished with a violation for the current case.
 func hangGuard(run *ev.Run, d time.Duration, cs func() ev.Case, what string, f func()) {
 	t := time.AfterFunc(d, func() {
-		run.Violation("C05:hang:"+what, fmt.Sprintf("%s did not return within %v", what, d), cs(), nil)
+		run.Violation(run.ID+":hang:"+what, fmt.Sprintf("%s did not return within %v", what, d), cs(), nil)
 		os.Exit(run.Finish())
 	})
 	f()
